@@ -16,7 +16,7 @@ EXPLANATION = (
     "per frequency, or the energy-weighted band averages trapz_f(fillna0(p)[band]*e[band]) / m0(band). Decided: "
     "atan2 argument order (sin-moment first), radian->degree factor applied once, which moment feeds which slot, "
     "band forwarded to numerator and normaliser, and that every numpy/xarray attribute used on these paths exists in "
-    "the pinned environment. Not decided: output ranges and the rotation/mirror relations between two runs."
+    "the pinned environment; the 2-D class's direction quadrature (wrapped bin widths closed over the circle, e, a1..b2) is checked as in C02. Not decided: output ranges and the rotation/mirror relations between two runs."
 )
 
 
@@ -74,6 +74,11 @@ def run(ctx):
         envres.check_ext_used(ctx, it, "R03.4", cname)
         ctx.absorb(it)
         ctx.notes.extend(it.unknown_notes[:5])
+    # the 2-D direction parameters are built on the direction quadrature: bin widths, e, a1..b2 (rules shared with C02)
+    from . import c02
+    with ctx.renamed({"R02.1": "R03.5", "R02.2": "R03.5", "R02.3": "R03.5"}):
+        c02.direction_rules(ctx)
+    ctx.require_count("R03.5", 10)
     ctx.require_count("R03.1", 8)
     ctx.require_count("R03.2", 6)
     ctx.require_count("R03.3", 8)
